@@ -119,6 +119,119 @@ Definition uses (tab : list decl) (dev : option name) : list ev :=
   | Some nm => match find_decl nm tab with Some d => dev_use d | None => [] end
   end.
 
+(* ------------------------------------------------------------------ the dedup sets of emit() *)
+(* One list of keys stands for pin_mode_emitted, ultrasonic_pin_modes, loop_ultrasonic_modes,
+   button_init_emitted, servo_attach_emitted and lcd_init_emitted: a key is (device name, pin, tag) and the tag
+   says which set / which role:   1 Buzzer "OUTPUT"   10,11,12 RGBLed channel "0","1","2"   20,21,22 DCMotor
+   in1,in2,enable   30 Button mode   40 Potentiometer "INPUT"   50,51 Ultrasonic trig/echo declared in setup()
+   (ultrasonic_pin_modes)   60,61 Ultrasonic trig/echo hoisted from the loop (loop_ultrasonic_modes)
+   100 Led (the 2-tuple (name, pin))   70 button_init_emitted   71 servo_attach_emitted   72 lcd_init_emitted
+   (the last three are per name: pin 0). *)
+Definition key := (name * Z * Z)%type.
+
+Definition key_eqb (a b : key) : bool :=
+  name_eqb (fst (fst a)) (fst (fst b)) && (snd (fst a) =? snd (fst b)) && (snd a =? snd b).
+
+Definition kmem (k : key) (seen : list key) : bool := existsb (key_eqb k) seen.
+
+(* [pinMode(p, mode)] for every pin whose key (nm, p, tag + i*step) has not been emitted yet *)
+Fixpoint pm_dedup (nm : name) (mode tag step : Z) (pins : list Z) (seen : list key) : list ev * list key :=
+  match pins with
+  | [] => ([], seen)
+  | p :: r =>
+      if kmem (nm, p, tag) seen then pm_dedup nm mode (tag + step) step r seen
+      else let (t, s') := pm_dedup nm mode (tag + step) step r ((nm, p, tag) :: seen) in
+           (ECfg (RPin p) mode :: t, s')
+  end.
+
+(* emit() pass 1 over the top-level nodes of setup_body, with the dedup sets *)
+Definition hoist_setupD (d : decl) (seen : list key) : list ev * list key :=
+  let nm := d_name d in
+  match d_kind d with
+  | KButton => match d_pins d with
+               | p :: _ =>
+                   if kmem (nm, 0, 70) seen then ([], seen)
+                   else let (t, s') := pm_dedup nm 2 30 0 [p] seen in
+                        (t ++ [EUse (RPin p) false], (nm, 0, 70) :: s')
+               | [] => ([], seen) end
+  | KServo => if kmem (nm, 0, 71) seen then ([], seen) else (servo_cfg (d_pins d), (nm, 0, 71) :: seen)
+  | KMotor => let (t, s') := pm_dedup nm 1 20 1 (d_pins d) seen in (t ++ wr (d_pins d), s')
+  | KLcd => if kmem (nm, 0, 72) seen then ([], seen) else (hoist_setup d, (nm, 0, 72) :: seen)
+  | KBuzzer => pm_dedup nm 1 1 0 (d_pins d) seen
+  | KPot => pm_dedup nm 0 40 0 (d_pins d) seen
+  | KLed | KRGB | KUltra | KSerial => ([], seen)
+  end.
+
+(* ... of loop_body.  The Led line is appended unconditionally (emitter.py 2895). *)
+Definition hoist_loopD (d : decl) (seen : list key) : list ev * list key :=
+  let nm := d_name d in
+  match d_kind d with
+  | KButton => match d_pins d with p :: _ => pm_dedup nm 2 30 0 [p] seen | [] => ([], seen) end
+  | KServo => if kmem (nm, 0, 71) seen then ([], seen) else (servo_cfg (d_pins d), (nm, 0, 71) :: seen)
+  | KMotor => let (t, s') := pm_dedup nm 1 20 1 (d_pins d) seen in (t ++ wr (d_pins d), s')
+  | KLed => (pm 1 (d_pins d), seen)
+  | KRGB => pm_dedup nm 1 10 1 (d_pins d) seen
+  | KUltra => match d_pins d with
+              | t :: e :: _ =>
+                  let (a, s1) := pm_dedup nm 1 60 0 [t] seen in
+                  let (b, s2) := pm_dedup nm 0 61 0 [e] s1 in (a ++ b, s2)
+              | _ => ([], seen) end
+  | KPot => pm_dedup nm 0 40 0 (d_pins d) seen
+  | KBuzzer | KLcd | KSerial => ([], seen)
+  end.
+
+(* _emit_block at a declaration that is a top-level node of setup_body / loop_body (pass 2) *)
+Definition inplaceD (in_setup : bool) (d : decl) (seen : list key) : list ev * list key :=
+  let nm := d_name d in
+  match d_kind d with
+  | KSerial => ([ECfg RSer 0], seen)
+  | KLed => if in_setup then pm_dedup nm 1 100 0 (d_pins d) seen else ([], seen)
+  | KRGB => if in_setup then pm_dedup nm 1 10 1 (d_pins d) seen else ([], seen)
+  | KUltra => if in_setup then
+                match d_pins d with
+                | t :: e :: _ =>
+                    let (a, s1) := pm_dedup nm 1 50 0 [t] seen in
+                    let (b, s2) := pm_dedup nm 0 51 0 [e] s1 in (a ++ b, s2)
+                | _ => ([], seen) end
+              else ([], seen)
+  | KMotor => if in_setup then let (t, s') := pm_dedup nm 1 20 1 (d_pins d) seen in (t ++ wr (d_pins d), s')
+              else ([], seen)
+  | KBuzzer => if in_setup then pm_dedup nm 1 1 0 (d_pins d) seen else ([], seen)
+  | KServo | KButton | KPot | KLcd => ([], seen)
+  end.
+
+(* ------------------------------------------------------------------ which declaration a command resolves to *)
+(* Led / RGBLed / DCMotor / Buzzer (dicts re-assigned by _emit_block at every declaration) and Potentiometer
+   (resolved by the parser, in source order): the textually most recent declaration of the name.
+   Servo: one [Servo __servo_<name>] object per NAME, attached once - to the pin of the first Servo declaration of
+   that name in pass-1 order; every write of that name goes to this object.
+   Ultrasonic: one helper [__redu_ultrasonic_measure_<name>] per NAME, generated after pass 2 from the LAST
+   Ultrasonic declaration of that name; every measurement of that name uses these pins. *)
+Definition same_kn (a b : decl) : bool := kind_eqb (d_kind a) (d_kind b) && name_eqb (d_name a) (d_name b).
+
+Definition first_of (G : list decl) (d : decl) : decl :=
+  match find (same_kn d) G with Some x => x | None => d end.
+
+Definition redirect (G : list decl) (d : decl) : decl :=
+  match d_kind d with
+  | KServo => first_of G d
+  | KUltra => first_of (rev G) d
+  | _ => d
+  end.
+
+(* the state pass 2 carries from one top-level statement to the next: the binding table (most recent first)
+   and the dedup keys *)
+Record tstate := mkT { ts_tab : list decl; ts_seen : list key }.
+
+Definition adv (G : list decl) (in_setup : bool) (st : tstate) (s : stmt) : tstate :=
+  match s with
+  | SDecl dd => mkT (redirect G dd :: ts_tab st) (snd (inplaceD in_setup dd (ts_seen st)))
+  | _ => st
+  end.
+
+Definition adv_all (G : list decl) (in_setup : bool) (st : tstate) (l : list (list name * stmt)) : tstate :=
+  fold_left (fun st ds => adv G in_setup st (snd ds)) l st.
+
 (* ------------------------------------------------------------------ the break guard (parser.py 2355-2360) *)
 Fixpoint bg (main : bool) (ld : nat) (s : stmt) : bool :=
   match s with
@@ -258,6 +371,28 @@ Fixpoint run_ann (m : mode) (tab : list decl) (in_setup : bool)
       end
   end.
 
+(* the top-level statements of setup() / loop() as emit() prints them: a device declaration emits its
+   (dedup-filtered) in-place configuration and re-binds its name; any other statement runs with the bindings
+   in force at that point of the text *)
+Definition top_ev (m : mode) (in_setup : bool) (st : tstate) (d : list name) (s : stmt) (v : vstate)
+  : vstate * list ev * bool :=
+  match s with
+  | SDecl dd => (v, fst (inplaceD in_setup dd (ts_seen st)), false)
+  | _ => run_stmt m (ts_tab st) true in_setup d s v
+  end.
+
+Fixpoint run_annT (G : list decl) (m : mode) (in_setup : bool) (st : tstate)
+         (l : list (list name * stmt)) (v : vstate) : vstate * list ev * bool :=
+  match l with
+  | [] => (v, [], false)
+  | (d, s1) :: r =>
+      match top_ev m in_setup st d s1 v with
+      | (v1, t1, true) => (v1, t1, true)
+      | (v1, t1, false) =>
+          match run_annT G m in_setup (adv G in_setup st s1) r v1 with (v2, t2, b2) => (v2, t1 ++ t2, b2) end
+      end
+  end.
+
 (* ------------------------------------------------------------------ housekeeping *)
 Record hstate := mkH { h_prev : list (name * bool); h_cnt : list (Z * nat) }.
 
@@ -314,12 +449,37 @@ Definition transl (its : list item) : program :=
       (fst sp) (snd sp)
       (poll_names its) (tick_names its) (funcs its) (locals_of its).
 
-(* ButtonPoll: only buttons that are top-level declarations are in button_decls *)
+(* ButtonPoll: only buttons that are top-level declarations are in button_decls; a later declaration of the
+   same name replaces the earlier one (button_decls[node.name] = node in both pass-1 loops) *)
 Definition button_decl (p : program) (b : name) : option decl :=
-  match find_decl b (filter is_button (p_top_setup p ++ p_top_loop p)) with
+  match find_decl b (filter is_button (rev (p_top_setup p ++ p_top_loop p))) with
   | Some d => Some d
   | None => None
   end.
+
+(* pass 1 of emit(): hoisted configuration, threading the dedup keys through setup_body then loop_body *)
+Fixpoint hoist_fold (f : decl -> list key -> list ev * list key) (l : list decl) (seen : list key)
+  : list ev * list key :=
+  match l with
+  | [] => ([], seen)
+  | d :: r => let (t1, s1) := f d seen in let (t2, s2) := hoist_fold f r s1 in (t1 ++ t2, s2)
+  end.
+
+Definition hoistsD (p : program) : list ev * list key :=
+  let (t1, s1) := hoist_fold hoist_setupD (p_top_setup p) [] in
+  let (t2, s2) := hoist_fold hoist_loopD (p_top_loop p) s1 in (t1 ++ t2, s2).
+
+Definition p_G (p : program) : list decl := p_top_setup p ++ p_top_loop p.
+
+(* the dicts after pass 1: a later setup declaration overwrites an earlier one, a loop declaration is entered
+   only if the name is still absent; names declared elsewhere (nested blocks, functions) are looked up last *)
+Definition st0 (p : program) : tstate :=
+  mkT (map (redirect (p_G p)) (rev (p_top_setup p) ++ p_top_loop p) ++ p_tab p) (snd (hoistsD p)).
+
+Definition stS (p : program) : tstate := adv_all (p_G p) true (st0 p) (p_setup p).
+
+(* functions are emitted after pass 2, from copies of the dicts *)
+Definition p_tabF (p : program) : list decl := ts_tab (adv_all (p_G p) false (stS p) (p_loop p)).
 
 Definition poll_one (inp : Z -> nat -> bool) (p : program) (b : name) (h : hstate) : hstate * list ev :=
   match button_decl p b with
@@ -330,7 +490,7 @@ Definition poll_one (inp : Z -> nat -> bool) (p : program) (b : name) (h : hstat
           let click := lvl && negb (blookup b (h_prev h1)) in
           (set_prev b lvl h1,
            EPoll pin :: (if click then match d_handler d with
-                                       | Some f => handler_events (p_tab p) (find_func f (p_funcs p))
+                                       | Some f => handler_events (p_tabF p) (find_func f (p_funcs p))
                                        | None => [] end else []))
       | [] => (h, [])
       end
@@ -363,23 +523,34 @@ Definition setup_sample (inp : Z -> nat -> bool) (d : decl) (h : hstate) : hstat
   | _, _ => h
   end.
 
-Definition hoists (p : program) : list ev :=
-  flat_map hoist_setup (p_top_setup p) ++ flat_map hoist_loop (p_top_loop p).
+Definition hoists (p : program) : list ev := fst (hoistsD p).
 
 Definition v0 : vstate := mkV [] false.
 Definition h0 : hstate := mkH [] [].
 
+(* button_init_emitted: only the first setup declaration of a Button name takes the setup sample *)
+Fixpoint first_buttons (seen : list name) (l : list decl) : list decl :=
+  match l with
+  | [] => []
+  | d :: r =>
+      if is_button d then
+        if mem_name (d_name d) seen then first_buttons seen r else d :: first_buttons (d_name d :: seen) r
+      else first_buttons seen r
+  end.
+
+Definition setup_h (inp : Z -> nat -> bool) (p : program) : hstate :=
+  fold_left (fun h d => setup_sample inp d h) (first_buttons [] (p_top_setup p)) h0.
+
 Definition run_setup (m : mode) (inp : Z -> nat -> bool) (p : program) : vstate * hstate * list ev :=
-  let h := fold_left (fun h d => setup_sample inp d h) (p_top_setup p) h0 in
-  match run_ann m (p_tab p) true (p_setup p) v0 with
-  | (v, t, _) => (v, h, hoists p ++ t)
+  match run_annT (p_G p) m true (st0 p) (p_setup p) v0 with
+  | (v, t, _) => (v, setup_h inp p, hoists p ++ t)
   end.
 
 (* one pass of loop(): polls, ticks, user statements; returns also whether the pass was cut short *)
 Definition run_pass (m : mode) (inp : Z -> nat -> bool) (p : program) (v : vstate) (h : hstate)
   : vstate * hstate * list ev * bool :=
   let (h1, tp) := poll_all inp p (p_polls p) h in
-  match run_ann m (p_tab p) false (p_loop p) v with
+  match run_annT (p_G p) m false (stS p) (p_loop p) v with
   | (v1, tb, brk) =>
       (match m with MC => drop (p_locals p) v1 | MPy => v1 end, h1, tp ++ tick_events p ++ tb, brk)
   end.
@@ -465,6 +636,20 @@ Fixpoint cbu_go (cfg : list (res * Z)) (t : list ev) : bool :=
   end.
 
 Definition cbu (t : list ev) : bool := cbu_go [] t.
+
+(* the configurations a trace has established, and what one event needs from them *)
+Definition cstep (c : list (res * Z)) (e : ev) : list (res * Z) :=
+  match e with ECfg r m => (r, m) :: c | _ => c end.
+Definition cfgs (t : list ev) (c : list (res * Z)) : list (res * Z) := fold_left cstep t c.
+
+Definition safe (c : list (res * Z)) (e : ev) : bool :=
+  match e with
+  | EUse r w => has_cfg c r w
+  | EHUse r w => has_cfg c r w
+  | EPoll p => has_cfg c (RPin p) false
+  | ETick l => has_cfg c (RLcd l) true
+  | _ => true
+  end.
 
 Definition pin_cfgs (t : list ev) : list (Z * Z) :=
   flat_map (fun e => match e with ECfg (RPin p) m => [(p, m)] | _ => [] end) t.
@@ -645,7 +830,78 @@ Definition decl_pin_modes (d : decl) : list (Z * Z) :=
   | KServo | KSerial => []
   end.
 
+(* a command on the device bound to [nm] in table [tab] touches only resources configured in [cfg] *)
+Definition uses_ok (cfg : list (res * Z)) (tab : list decl) (nm : name) : bool :=
+  forallb (safe cfg) (uses tab (Some nm)).
+
+(* setup(), statement by statement, with the bindings and dedup keys of that point of the text: the in-place
+   configuration of a declaration is self-contained given what precedes it (a DCMotor's safe-stop writes), and
+   every device a statement mentions - at any nesting depth - resolves to configured resources *)
+Fixpoint setup_chk (G : list decl) (st : tstate) (cfg : list (res * Z)) (l : list (list name * stmt)) : bool :=
+  match l with
+  | [] => true
+  | (_, s) :: r =>
+      match s with
+      | SDecl dd =>
+          let t := fst (inplaceD true dd (ts_seen st)) in
+          cbu_go cfg t && setup_chk G (adv G true st s) (cfgs t cfg) r
+      | _ => forallb (uses_ok cfg (ts_tab st)) (devs_stmt s) && setup_chk G st cfg r
+      end
+  end.
+
+(* the configuration events setup()'s top-level declarations emit in place *)
+Fixpoint setup_cfgs (G : list decl) (st : tstate) (l : list (list name * stmt)) : list ev :=
+  match l with
+  | [] => []
+  | (_, s) :: r =>
+      match s with
+      | SDecl dd => fst (inplaceD true dd (ts_seen st)) ++ setup_cfgs G (adv G true st s) r
+      | _ => setup_cfgs G st r
+      end
+  end.
+
+Fixpoint loop_chk (G : list decl) (st : tstate) (cfg : list (res * Z)) (l : list (list name * stmt)) : bool :=
+  match l with
+  | [] => true
+  | (_, s) :: r =>
+      match s with
+      | SDecl _ => loop_chk G (adv G false st s) cfg r
+      | _ => forallb (uses_ok cfg (ts_tab st)) (devs_stmt s) && loop_chk G st cfg r
+      end
+  end.
+
+Definition count_name (x : name) (l : list name) : nat := length (filter (name_eqb x) l).
+
+(* everything setup() has configured when the first pass starts *)
+Definition cfg_setup (p : program) : list (res * Z) :=
+  cfgs (setup_cfgs (p_G p) (st0 p) (p_setup p)) (cfgs (hoists p) []).
+
+(* Device placement, the guard of configured-before-use.  Structural part: devices are declared by top-level
+   statements only; loop-top declarations are of the hoisted kinds; a Buzzer / LCD / SerialMonitor name is bound
+   once in the whole file; a device name is bound more than once only in programs with a single main loop as last
+   item; no pin is given two modes by the declarations.  Resolution part (static: no input history, no N, no
+   branch outcome enters): with the bindings and dedup keys emit() has at each point of the text, the hoisted block
+   is self-contained, every statement of setup() mentions only devices whose resolved pins are configured by the
+   hoisted block or by an earlier in-place configuration, every statement of loop(), every injected poll / tick
+   and every handler only devices configured by the end of setup(). *)
 Definition well_placed (its : list item) : bool :=
+  let p := transl its in
+  let G := p_G p in
+  let cS := cfg_setup p in
+  forallb nested_decl_free (all_stmts its) &&
+  forallb (fun d => hoisted_kind (d_kind d)) (p_top_loop p) &&
+  forallb (fun d => hoisted_kind (d_kind d) || Nat.eqb (count_name (d_name d) (map d_name (p_tab p))) 1) (p_tab p) &&
+  (nodup_names (map d_name (p_tab p)) || one_main_last its) &&
+  cbu_go [] (hoists p) &&
+  setup_chk G (st0 p) (cfgs (hoists p) []) (p_setup p) &&
+  loop_chk G (stS p) cS (p_loop p) &&
+  forallb (fun pin => has_cfg cS (RPin pin) false) (poll_pins p) &&
+  forallb (fun l => has_cfg cS (RLcd l) true) (tick_list p) &&
+  forallb (uses_ok cS (p_tabF p)) (flat_map devs_stmt (flat_map snd (p_funcs p))) &&
+  functional (flat_map decl_pin_modes (p_tab p)).
+
+(* the guard of the first version of this model: unique device names, declared before use *)
+Definition well_placed_unique (its : list item) : bool :=
   let p := transl its in
   let sl := fst (split its) in
   let ll := snd (split its) in
